@@ -181,8 +181,10 @@ def splice(lowered_text, specs, cnames, subst):
                         if text.lstrip().startswith('__CPROVER_' + kind):
                             k = 1 + len([1 for key in ordinals if key[0] == fn and key[1] == kind])
                             ordinals[(fn, kind, k)] = (fn, tags, label, text)
-                extra = [('__CPROVER_ensures(VAC_NORMAL || l0_exc != 0)', 'vacuity guard: normal exit reachable')]
-                if spec.throws:
+                extra = []
+                if fn == cnames[0]:     # only the function under proof gets the reachability guards (not the replaced callees)
+                    extra = [('__CPROVER_ensures(VAC_NORMAL || l0_exc != 0)', 'vacuity guard: normal exit reachable')]
+                if spec.throws and fn == cnames[0]:
                     extra.append(('__CPROVER_ensures(VAC_EXC || l0_exc == 0)', 'vacuity guard: exceptional exit reachable'))
                 for text, label in extra:
                     out_lines.append(text)
